@@ -109,6 +109,10 @@ pub fn paren(s: &str) -> String {
 }
 
 pub struct Global {
+    /// enum name -> variants (name, payload types)
+    pub enums: HashMap<String, Vec<(String, Vec<Ty>)>>,
+    /// structs declared `#[repr(C, packed)]` (size_of / pread are only modelled for these)
+    pub packed: Vec<String>,
     /// struct name -> kept fields with their types
     pub structs: HashMap<String, Vec<(String, Ty)>>,
     pub fns: HashMap<String, FnSig>,
@@ -123,6 +127,9 @@ pub struct LoopCx {
     pub break_text: String,
     /// the loop function returns `Exit`
     pub has_ret: bool,
+    pub label: Option<String>,
+    /// text for `break 'l` where `'l` is the loop directly enclosing this one
+    pub far_break_text: Option<String>,
 }
 
 pub struct FnCx<'g> {
@@ -145,6 +152,8 @@ pub struct FnCx<'g> {
     pub generic_args: String,
     /// `let v = bytes.view_bits_mut::<Lsb0>()`: v -> bytes
     pub bit_views: HashMap<String, String>,
+    /// label of the loop that directly encloses the loop being translated
+    pub enclosing_label: Option<String>,
 }
 
 pub type K<'a> = &'a dyn Fn(&mut FnCx, Option<Val>) -> R<String>;
@@ -244,6 +253,14 @@ pub fn rust_ty(t: &syn::Type) -> R<Ty> {
         syn::Type::Paren(p) => rust_ty(&p.elem),
         syn::Type::Slice(s) => Ok(Ty::list(rust_ty(&s.elem)?)),
         syn::Type::Array(a) => Ok(Ty::list(rust_ty(&a.elem)?)),
+        syn::Type::BareFn(bf) => {
+            let args = bf.inputs.iter().map(|a| rust_ty(&a.ty)).collect::<R<Vec<_>>>()?;
+            let ret = match &bf.output {
+                syn::ReturnType::Default => Ty::Unit,
+                syn::ReturnType::Type(_, t) => rust_ty(t)?,
+            };
+            Ok(Ty::Fun(args, Box::new(ret)))
+        }
         syn::Type::Tuple(t) if t.elems.is_empty() => Ok(Ty::Unit),
         syn::Type::Tuple(t) => Ok(Ty::Tuple(t.elems.iter().map(rust_ty).collect::<R<Vec<_>>>()?)),
         syn::Type::Path(p) => {
@@ -272,6 +289,9 @@ pub fn rust_ty(t: &syn::Type) -> R<Ty> {
             if STRUCTS.with(|st| st.borrow().contains(&name)) {
                 return Ok(Ty::Struct(name));
             }
+            if name == "IgnoredAny" {
+                return Ok(Ty::Unit);
+            }
             match name.as_str() {
                 "Self" => SELF_TY.with(|t| t.borrow().clone()).ok_or_else(|| "unsupported: Self outside an impl".to_string()),
                 "bool" => Ok(Ty::Bool),
@@ -281,6 +301,7 @@ pub fn rust_ty(t: &syn::Type) -> R<Ty> {
                 // Cow<[T]> / Cow<str>: the borrowed-or-owned distinction is not observable
                 "Cow" | "Arc" | "Rc" | "Box" => arg(0),
                 "BitVec" => Ok(Ty::list(Ty::Bool)),
+                "FxHashMap" | "HashMap" => Ok(Ty::Map(Box::new(arg(0)?), Box::new(arg(1)?))),
                 "Option" => Ok(Ty::opt(arg(0)?)),
                 "Result" => {
                     // crate::errors::Result<T>, io::Result<T>  (one type argument)
@@ -307,6 +328,27 @@ fn find_fn<'a>(file: &'a syn::File, item: &Item) -> R<&'a syn::ItemFn> {
     }
     match item {
         Item::Fn(n) => top(file, n).ok_or(format!("unsupported: fn {} not found", n)),
+        Item::NestedFn(o, n) if top(file, o).is_none() => {
+            // nested inside a method: any function item of that name inside a body whose owner is named `o`
+            struct V<'a, 'f>(&'a str, &'a str, Option<&'f syn::ItemFn>, bool);
+            impl<'ast, 'a> syn::visit::Visit<'ast> for V<'a, 'ast> {
+                fn visit_impl_item_fn(&mut self, m: &'ast syn::ImplItemFn) {
+                    let was = self.3;
+                    self.3 = m.sig.ident == self.0;
+                    syn::visit::visit_impl_item_fn(self, m);
+                    self.3 = was;
+                }
+                fn visit_item_fn(&mut self, f: &'ast syn::ItemFn) {
+                    if self.3 && self.2.is_none() && f.sig.ident == self.1 {
+                        self.2 = Some(f);
+                    }
+                    syn::visit::visit_item_fn(self, f);
+                }
+            }
+            let mut v = V(o, n, None, false);
+            syn::visit::Visit::visit_file(&mut v, file);
+            v.2.ok_or(format!("unsupported: nested fn {}::{} not found", o, n))
+        }
         Item::NestedFn(o, n) => {
             let outer = top(file, o).ok_or(format!("unsupported: fn {} not found", o))?;
             outer
@@ -352,9 +394,31 @@ fn find_method_in<'a>(file: &'a syn::File, ty: &str, name: &str, traits: bool) -
     Err(format!("unsupported: method {}::{} not found", ty, name))
 }
 
+fn is_packed(file: &syn::File, name: &str) -> bool {
+    file.items.iter().any(|i| match i {
+        syn::Item::Struct(st) if st.ident == name => st.attrs.iter().any(|a| a.path().is_ident("repr") && {
+            let t = quote::ToTokens::to_token_stream(a).to_string();
+            t.contains("packed") && t.contains('C')
+        }),
+        _ => false,
+    })
+}
+
+fn all_structs(file: &syn::File) -> Vec<syn::ItemStruct> {
+    struct V(Vec<syn::ItemStruct>);
+    impl<'ast> syn::visit::Visit<'ast> for V {
+        fn visit_item_struct(&mut self, s: &'ast syn::ItemStruct) {
+            self.0.push(s.clone());
+        }
+    }
+    let mut v = V(vec![]);
+    syn::visit::Visit::visit_file(&mut v, file);
+    v.0
+}
+
 fn translate_struct(file: &syn::File, name: &str, keep: &[&str]) -> R<(Vec<(String, Ty)>, String)> {
-    for i in &file.items {
-        if let syn::Item::Struct(st) = i {
+    for st in &all_structs(file) {
+        {
             if st.ident != name {
                 continue;
             }
@@ -451,6 +515,83 @@ pub fn translate_unit(src: &Path, unit: &Unit, g: &mut Global) -> R<String> {
                 out.push_str(&text);
                 out.push('\n');
             }
+            Item::ClosureBody(owner, func_name, param, new_name, params, result_ty) => {
+                let block: syn::Block = if owner.is_empty() {
+                    (*find_fn(&file, &Item::Fn(func_name))?.block).clone()
+                } else {
+                    find_method(&file, owner, func_name)?.block.clone()
+                };
+                struct V<'a>(&'a str, Option<syn::Expr>);
+                impl<'ast, 'a> syn::visit::Visit<'ast> for V<'a> {
+                    fn visit_expr_closure(&mut self, c: &'ast syn::ExprClosure) {
+                        if self.1.is_none() && c.inputs.len() == 1 {
+                            if let syn::Pat::Ident(pi) = &c.inputs[0] {
+                                if pi.ident == self.0 {
+                                    self.1 = Some((*c.body).clone());
+                                    return;
+                                }
+                            }
+                        }
+                        syn::visit::visit_expr_closure(self, c);
+                    }
+                }
+                let mut v = V(param, None);
+                syn::visit::Visit::visit_block(&mut v, &block);
+                let body = v.1.ok_or(format!("unsupported: no closure |{}| in {}", param, func_name))?;
+                let header = format!("fn {}({}) -> {} {{ 0 }}", new_name, params, result_ty);
+                let mut synthetic: syn::ItemFn = syn::parse_str(&header).map_err(|e| format!("internal: closure header: {}", e))?;
+                synthetic.block.stmts = match body {
+                    syn::Expr::Block(b) => b.block.stmts,
+                    other => vec![syn::Stmt::Expr(other, None)],
+                };
+                let sig = signature(g, &synthetic, unit.module)?;
+                g.fns.insert(new_name.to_string(), sig);
+                let (text, fuel) = translate_fn(g, &synthetic, unit.module)?;
+                g.fns.get_mut(&new_name.to_string()).unwrap().fuel = fuel;
+                out.push_str(&format!("/- body of the closure `|{}| …` of `{}::{}` as a function of its own -/\n", param, owner, func_name));
+                out.push_str(&text);
+                out.push('\n');
+            }
+            Item::Enum(name) => {
+                let en = file
+                    .items
+                    .iter()
+                    .find_map(|i| match i {
+                        syn::Item::Enum(e) if e.ident == *name => Some(e),
+                        _ => None,
+                    })
+                    .ok_or(format!("unsupported: enum {} not found", name))?;
+                let mut variants = vec![];
+                let mut text = format!("/-- `enum {}` -/\ninductive {} where\n", name, name);
+                for v in &en.variants {
+                    let tys = match &v.fields {
+                        syn::Fields::Unit => vec![],
+                        syn::Fields::Unnamed(u) => u.unnamed.iter().map(|f| rust_ty(&f.ty)).collect::<R<Vec<_>>>()?,
+                        syn::Fields::Named(_) => return Err(format!("unsupported: struct variant in enum {}", name)),
+                    };
+                    let args = tys.iter().enumerate().map(|(i, t)| format!(" (a{} : {})", i, lean_ty(t))).collect::<String>();
+                    text.push_str(&format!("  | {}{}\n", sanitize(&v.ident.to_string()), args));
+                    variants.push((v.ident.to_string(), tys));
+                }
+                text.push_str("  deriving DecidableEq, Repr\n\n");
+                out.push_str(&text);
+                g.enums.insert(name.to_string(), variants);
+                // enums are named types like structs
+                STRUCTS.with(|st| st.borrow_mut().push(name.to_string()));
+            }
+            Item::FnWithSig(func_name, new_name, params, result_ty) => {
+                let func = find_fn(&file, &Item::Fn(func_name))?;
+                let header = format!("fn {}({}) -> {} {{ 0 }}", new_name, params, result_ty);
+                let mut synthetic: syn::ItemFn = syn::parse_str(&header).map_err(|e| format!("internal: header: {}", e))?;
+                synthetic.block = func.block.clone();
+                let sig = signature(g, &synthetic, unit.module)?;
+                g.fns.insert(new_name.to_string(), sig);
+                let (text, fuel) = translate_fn(g, &synthetic, unit.module)?;
+                g.fns.get_mut(&new_name.to_string()).unwrap().fuel = fuel;
+                out.push_str(&format!("/- `{}` with its generic parameters read as ({}) -/\n", func_name, params));
+                out.push_str(&text);
+                out.push('\n');
+            }
             Item::Mirror(name, text) => {
                 out.push_str(&format!("/- mirror (written by hand in tools/rs2lean/src/targets.rs, part of the trusted base): {} -/\n{}\n\n", name, text));
             }
@@ -458,6 +599,9 @@ pub fn translate_unit(src: &Path, unit: &Unit, g: &mut Global) -> R<String> {
                 let (fields, text) = translate_struct(&file, name, keep)?;
                 out.push_str(&text);
                 g.structs.insert(name.to_string(), fields);
+                if is_packed(&file, name) {
+                    g.packed.push(name.to_string());
+                }
                 STRUCTS.with(|st| st.borrow_mut().push(name.to_string()));
             }
             Item::Method(ty, name) => {
@@ -466,9 +610,13 @@ pub fn translate_unit(src: &Path, unit: &Unit, g: &mut Global) -> R<String> {
                 let func = syn::ItemFn { attrs: vec![], vis: syn::Visibility::Inherited, sig: m.sig.clone(), block: Box::new(m.block.clone()) };
                 let key = format!("{}::{}", ty, name);
                 let mut sig = signature(g, &func, unit.module)?;
-                sig.lean = format!("SmVerif.Gen.{}.{}.{}", unit.module, ty, sanitize(name));
+                // a method named like a field of its struct would collide with the projection in Lean
+                let clash = g.structs.get(*ty).map(|fs| fs.iter().any(|(f, _)| f == name)).unwrap_or(false);
+                let lean_method = if clash { format!("{}_fn", sanitize(name)) } else { sanitize(name) };
+                sig.lean = format!("SmVerif.Gen.{}.{}.{}", unit.module, ty, lean_method);
                 g.fns.insert(key.clone(), sig);
-                let (text, fuel) = translate_fn_named(g, &func, unit.module, Some(ty))?;
+                let owner_name = if clash { format!("{}.{}", ty, lean_method) } else { String::new() };
+                let (text, fuel) = translate_fn_named(g, &func, unit.module, Some(if clash { owner_name.as_str() } else { ty }))?;
                 g.fns.get_mut(&key).unwrap().fuel = fuel;
                 SELF_TY.with(|t| *t.borrow_mut() = None);
                 out.push_str(&text);
@@ -644,6 +792,8 @@ pub fn translate_fn_named(g: &Global, f: &syn::ItemFn, module: &str, owner: Opti
         let mut cx = FnCx {
             g,
             lean_name: match owner {
+                // an owner that already contains a dot is the complete (renamed) method name
+                Some(o) if o.contains('.') => o.to_string(),
                 Some(o) => format!("{}.{}", o, sanitize(&f.sig.ident.to_string())),
                 None => sanitize(&f.sig.ident.to_string()),
             },
@@ -661,6 +811,7 @@ pub fn translate_fn_named(g: &Global, f: &syn::ItemFn, module: &str, owner: Opti
             generic_binders: sig.generics.iter().map(|(n, ord)| format!(" {{{} : Type}} [DecidableEq {}]{}", n, n, if *ord { format!(" (lt_{} : {} → {} → Bool)", n, n, n) } else { String::new() })).collect(),
             generic_args: sig.generics.iter().filter(|(_, o)| *o).map(|(n, _)| format!(" lt_{}", n)).collect(),
             bit_views: HashMap::new(),
+            enclosing_label: None,
         };
         for p in &sig.params {
             cx.declare(&p.name, p.ty.clone());
